@@ -197,17 +197,20 @@ End One.
      H2  ~TcpServer is not run while a removeConnectionInLoop hop or a forceCloseInLoop functor
          is queued, and no peer close reaches a connection of a destroyed server before its
          queued connectDestroyed ran (TcpServer.cc "FIXME: unsafe");
-     H3  no loop-thread state change between the state test and the setState of a foreign
-         shutdown()/forceClose()/forceCloseWithDelay() (finding F-19);
+     H3  the state test of a foreign shutdown()/forceClose()/forceCloseWithDelay() that passed
+         still passes at its setState - exactly Conn_Race.set_ok of the x-layer of Conn_Model
+         (C02_H3_is_set_ok / C02_H3_only_set_ok; finding F-19);
      H4  ~TcpClient only when its connection has no holder besides the client and user
          references, and the user does not drop its last reference to a connection that
          outlived its client while it is still up (finding F-20);
      H5  (only for the poller before the fix of F-15, readd = true) no HUP is delivered to a
-         channel whose interest is empty.
+         channel whose interest is empty;
+     H6  a TcpClient is destroyed on its loop thread (CliDestroy), not on a foreign thread
+         (XBegin _ _ ADtor; XStore; XEnq) (finding F-13, recorded by C12/C08).
    Each hypothesis is needed: the _refuted theorems below give the op list that fails without
    it, and corpus/C02/sys replays each of them on the real code.
    ============================================================================================ *)
-From Muduo Require Import C02_Model C02_SysProofs C02_SysCount C02_GenTie Gen_C02.
+From Muduo Require Import C02_Model C02_SysProofs C02_SysCount C02_GenTie Gen_C02 Conn_Race C02_Link C02_LinkSys.
 
 (* ---- no assertion fails, no destroyed object is used: every op list, every number of loops --- *)
 Theorem C02_sys_no_assert_reachable_partial : forall nio readd ops, run true (init_sys nio readd) ops <> Fault.
@@ -315,6 +318,68 @@ Theorem C02_hup_empty_interest_refuted : run false (init_sys 0 true) w_f15 = Fau
 Proof. exact W_f15. Qed.
 Print Assumptions C02_hup_empty_interest_refuted.
 
+(* H6: finding F-13 (C12/C08), ~TcpClient on a foreign thread: the peer's close runs TcpClient::removeConnection on the freed
+   client; when the loop runs the queued functors first the same ops end in an ordinary DOWN and destruction *)
+Theorem C02_client_foreign_dtor_refuted : run false (init_sys 0 false) w_f13 = Fault /\ run true (init_sys 0 false) w_f13 = Rejected /\
+  (exists s o, run false (init_sys 0 false) [CliConnect; XBegin 1 0 ADtor; XStore 1; XEnq 1 false; Swap 0; Run 0 true true; Run 0 true true; EndBatch 0;
+                                            Swap 0; Run 0 true true; EndBatch 0] = Ok (s, o) /\
+     o = [OUp 0 0; ODown 0 0; ODtor 0 0 true]).
+Proof. exact W_f13. Qed.
+Print Assumptions C02_client_foreign_dtor_refuted.
+
+(* ============================================================================================
+   Part 1 and part 2 are one development.  The view of a connection of the owners model is
+   (state_, isWriting, isReading, reading_, registered).  L (C02_Link.lstep) is the life-cycle
+   machine on views; lpath / conn_path are the reflexive-transitive closures below.
+   ============================================================================================ *)
+(* every step of the owners model moves every connection's view along a path of L and emits, for
+   that connection, exactly the callbacks of the path *)
+Theorem C02_sys_projects_to_L : forall s o s' obs, sreach s -> step true s o = Ok (s', obs) ->
+  forall c, lpath (viewof s c) (proj c obs) (viewof s' c).
+Proof. exact S02_projects_to_L. Qed.
+Print Assumptions C02_sys_projects_to_L.
+
+(* every L step from a valid view is one Conn_Model step: from a Conn_Model state that satisfies the
+   invariant of Conn_Proofs and has this view, to a state with the next view, with the same callbacks *)
+Theorem C02_L_realised_by_Conn : forall v o v' e, lvalid v -> lstep v o = Some (v', e) ->
+  Conn_Proofs.Inv (wit v (wit_pending o)) /\ cview (wit v (wit_pending o)) = v /\
+  exists cm' ev, Conn_Model.step (wit v (wit_pending o)) (wit_op o) = Ok (cm', ev) /\ cview cm' = v' /\ levs ev = e.
+Proof. exact (fun v o v' e Hv Hs => match l_realised v o v' e Hv Hs with conj A B => conj A (conj (cview_wit v _) B) end). Qed.
+Print Assumptions C02_L_realised_by_Conn.
+
+(* composed: one step, and a whole run from the initial state *)
+Theorem C02_sys_projects_to_Conn : forall s o s' obs, sreach s -> step true s o = Ok (s', obs) ->
+  forall c, conn_path (viewof s c) (proj c obs) (viewof s' c).
+Proof. exact S02_projects_to_Conn. Qed.
+Print Assumptions C02_sys_projects_to_Conn.
+
+Theorem C02_sys_run_projects_to_Conn : forall nio readd ops s obs, run true (init_sys nio readd) ops = Ok (s, obs) ->
+  forall c, conn_path vinit (proj c obs) (viewof s c).
+Proof. exact S02_run_projects_to_Conn. Qed.
+Print Assumptions C02_sys_run_projects_to_Conn.
+
+Theorem C02_proj_def : forall c x, projx c x =
+  match x with OUp _ c' => if c' =? c then [LUp] else [] | ODown _ c' => if c' =? c then [LDown] else []
+             | OMsg _ c' => if c' =? c then [LMsg] else [] | ODtor _ _ _ => [] end.
+Proof. exact (fun c x => eq_refl). Qed.
+
+(* H3 is the race-freedom condition of Conn_Race: a foreign setState accepted under the hypotheses satisfies
+   Conn_Race.set_ok for the corresponding XSet of Conn_Model's x-layer, and is refused only when set_ok fails *)
+Theorem C02_H3_is_set_ok : forall s u a k r s' obs,
+  find_call u (s_calls s) = Some a -> a_stored a = false -> getc s (a_conn a) = Some k -> creq_of (a_api a) = Some r ->
+  step true s (XStore u) = Ok (s', obs) ->
+  forall cm reqs tm, st cm = k_st k ->
+  Conn_Race.set_ok (mkX cm (mkReq u r (a_loaded a) false :: reqs) tm) (Conn_Model.XSet u).
+Proof. exact S02_H3_is_set_ok. Qed.
+Print Assumptions C02_H3_is_set_ok.
+
+Theorem C02_H3_only_set_ok : forall s u a k r cm reqs tm,
+  find_call u (s_calls s) = Some a -> a_stored a = false -> getc s (a_conn a) = Some k -> creq_of (a_api a) = Some r ->
+  st cm = k_st k -> Conn_Race.set_ok (mkX cm (mkReq u r (a_loaded a) false :: reqs) tm) (Conn_Model.XSet u) ->
+  step true s (XStore u) = step false s (XStore u).
+Proof. exact S02_H3_only_set_ok. Qed.
+Print Assumptions C02_H3_only_set_ok.
+
 (* ---- the generated facts the model builds in -------------------------------------------------- *)
 Theorem C02_gen_tie :
   server_establish_runInLoop = true /\ server_remove_hop_runInLoop = true /\ server_destroy_queueInLoop = true /\
@@ -336,3 +401,9 @@ Example ex_owners_run : exists s o, run true (init_sys 2 false) ex_sys_ops = Ok 
   o = [OUp 0 2; OUp 1 0; OMsg 1 0; ODown 1 0; ODtor 100 0 true; OUp 2 1; ODown 2 1; ODtor 2 1 true; ODown 0 2; ODtor 0 2 true] /\
   (forall l v, getl s l = Some v -> q_all v = []) /\ s_calls s = [].
 Proof. exact ex_sys_run. Qed.
+
+(* non-vacuity of the link: in the run above connection 0 goes UP, gets a message and goes DOWN, and these
+   callbacks are the callbacks of a chain of Conn_Model steps ending in a Disconnected view that is no longer registered *)
+Example ex_link : exists s o, run true (init_sys 2 false) ex_sys_ops = Ok (s, o) /\ proj 0 o = [LUp; LMsg; LDown] /\
+  conn_path vinit [LUp; LMsg; LDown] (viewof s 0) /\ v_st (viewof s 0) = Disconnected /\ v_reg (viewof s 0) = false.
+Proof. exact ex_link_run. Qed.
